@@ -277,6 +277,23 @@ theorem binNDs_sum (ss dims : List Nat) (hl : ss.length = dims.length) (v : List
       rw [List.map_flatten, sum_flatten', List.map_map]; rfl
     rw [e1, hflat, ← sum_flatten', chunks_flatten _ _ _ h]
 
+/-- `(N / D) * D = N` elementwise when no denominator vanishes -/
+theorem zipWith_div_mul_cancel : ∀ (N D : List K), (∀ x ∈ D, x ≠ 0) → N.length = D.length →
+    List.zipWith (· * ·) (List.zipWith (· / ·) N D) D = N := by
+  intro N
+  induction N with
+  | nil => intro D _ _; simp
+  | cons n N ih =>
+    intro D hD hl
+    cases D with
+    | nil => simp at hl
+    | cons d D =>
+      simp only [List.length_cons, Nat.add_right_cancel_iff] at hl
+      have hd : d ≠ 0 := hD d (by simp)
+      simp only [List.zipWith_cons_cons, ih D (fun x hx => hD x (by simp [hx])) hl]
+      congr 1
+      field_simp
+
 end sums
 
 /-! ### the index map of binning -/
@@ -568,6 +585,84 @@ theorem binTensorL_eq (ss dims : List Nat) : ∀ (ts : List Nat) (v : List K),
       intro blk hblk
       exact ih blk (chunks_mem_length _ T v (by rw [hv]; ring) blk hblk)
     rw [List.flatMap_congr this, ← List.flatMap_assoc, chunks_chunks]
+
+end
+
+/-! ### binning is linear: a common factor of the samples (of the weights: another unit of length) factors out -/
+
+section
+theorem chunks_map {α β : Type} (f : α → β) (m : Nat) : ∀ (k : Nat) (v : List α),
+    chunks m k (v.map f) = (chunks m k v).map (List.map f) := by
+  intro k
+  induction k with
+  | zero => intro v; simp [chunks]
+  | succ k ih => intro v; simp [chunks, List.map_take, List.map_drop, ← ih]
+
+end
+
+section
+variable {K : Type} [Field K]
+
+
+theorem vadd_smul (c : K) : ∀ (a b : List K),
+    vadd (a.map (c * ·)) (b.map (c * ·)) = (vadd a b).map (c * ·) := by
+  intro a
+  induction a with
+  | nil => intro b; simp [vadd]
+  | cons x a ih =>
+    intro b
+    cases b with
+    | nil => simp [vadd]
+    | cons y b =>
+      have := ih b
+      simp only [vadd] at this
+      simp [vadd, this, mul_add]
+
+theorem vsum_smul (c : K) (m : Nat) (l : List (List K)) :
+    vsum m (l.map (List.map (c * ·))) = (vsum m l).map (c * ·) := by
+  induction l with
+  | nil => simp [vsum, vzero]
+  | cons g l ih =>
+    simp only [vsum, List.map_cons, List.foldr_cons] at ih ⊢
+    rw [ih, vadd_smul]
+
+theorem binNDs_smul (c : K) : ∀ (ss dims : List Nat) (v : List K),
+    binNDs ss dims (v.map (c * ·)) = (binNDs ss dims v).map (c * ·) := by
+  intro ss
+  induction ss with
+  | nil => intro dims v; cases dims <;> simp [binNDs]
+  | cons s ss ih =>
+    intro dims v
+    cases dims with
+    | nil => simp [binNDs]
+    | cons n rest =>
+      simp only [binNDs]
+      rw [chunks_map, chunks_map, List.flatMap_map, List.map_flatMap]
+      congr 1
+      funext g
+      rw [vsum_smul, ih]
+
+theorem zipWith_mul_smul (c : K) : ∀ (v w : List K),
+    List.zipWith (· * ·) v (w.map (c * ·)) = (List.zipWith (· * ·) v w).map (c * ·) := by
+  intro v
+  induction v with
+  | nil => intro w; simp
+  | cons x v ih =>
+    intro w
+    cases w with
+    | nil => simp
+    | cons y w => simp [ih w]; ring
+
+theorem zipWith_div_smul (c : K) (hc : c ≠ 0) : ∀ (N D : List K),
+    List.zipWith (· / ·) (N.map (c * ·)) (D.map (c * ·)) = List.zipWith (· / ·) N D := by
+  intro N
+  induction N with
+  | nil => intro D; simp
+  | cons x N ih =>
+    intro D
+    cases D with
+    | nil => simp
+    | cons y D => simp [ih D, mul_div_mul_left _ _ hc]
 
 end
 
